@@ -12,6 +12,8 @@ import Driver.Latex
 import Driver.Wrap
 import Driver.State
 import Driver.Footnotes
+import Driver.Scan
+import Driver.Block
 open Lean
 
 def dispatch (op : String) (j : Json) : Except String Json :=
@@ -31,6 +33,8 @@ def dispatch (op : String) (j : Json) : Except String Json :=
   | "state.run" => Driver.State.runOp j
   | "footnotes.of" => Driver.Footnotes.ofOp j
   | "label.normalize" => Driver.Footnotes.normOp j
+  | "scan" => Driver.Scan.scanOp j
+  | "block.parse" => Driver.Block.parseOp j
   | "ping" => pure (Json.str "pong")
   | _ => throw s!"unknown op {op}"
 
